@@ -29,6 +29,25 @@ type ReadFault struct {
 	At       int  `json:"at"`
 	Sticky   bool `json:"sticky,omitempty"`    // every later Read fails too; otherwise only once
 	WithData bool `json:"with_data,omitempty"` // the error accompanies the last bytes before At (n>0, err!=nil)
+	// ErrKind selects the identity of the error the failing Read returns: "" = sim.ErrInjected, "unexpected-eof" =
+	// io.ErrUnexpectedEOF (what a cut HTTP body or decompressor returns), "closed-pipe" = io.ErrClosedPipe.
+	ErrKind string `json:"err_kind,omitempty"`
+}
+
+// FaultErr maps an error kind to the error value a failing call returns.
+func FaultErr(kind string, write bool) error {
+	switch kind {
+	case "unexpected-eof":
+		return io.ErrUnexpectedEOF
+	case "closed-pipe":
+		return io.ErrClosedPipe
+	case "short-write":
+		return io.ErrShortWrite
+	}
+	if write {
+		return ErrInjectedWrite
+	}
+	return ErrInjected
 }
 
 // ErrInjected is the error every injected read failure wraps.
@@ -123,7 +142,7 @@ func (s *Source) Read(p []byte) (int, error) {
 	// Sticky failure already reached.
 	if f != nil && f.Sticky && s.faultFired {
 		s.note(len(p), 0, ErrInjected)
-		return 0, ErrInjected
+		return 0, FaultErr(f.ErrKind, false)
 	}
 	// Failure point reached exactly.
 	if f != nil && !s.faultDone && s.pos == f.At && !(f.WithData && f.At > 0) {
@@ -133,7 +152,7 @@ func (s *Source) Read(p []byte) (int, error) {
 			s.ended = true
 		}
 		s.note(len(p), 0, ErrInjected)
-		return 0, ErrInjected
+		return 0, FaultErr(f.ErrKind, false)
 	}
 	if s.pos >= len(s.Data) {
 		s.ended = true
@@ -180,7 +199,7 @@ func (s *Source) Read(p []byte) (int, error) {
 			s.ended = true
 		}
 		s.note(len(p), n, ErrInjected)
-		return n, ErrInjected
+		return n, FaultErr(f.ErrKind, false)
 	}
 	if s.pos == len(s.Data) && s.Plan.EOFWithLast && (f == nil || s.faultDone || f.At != len(s.Data)) {
 		s.ended = true
@@ -205,6 +224,8 @@ type WriteFault struct {
 	Short int `json:"short,omitempty"`
 	// Full >0: byte budget ("disk full"): Call is ignored, the crossing write is short, later writes fail.
 	Full int `json:"full,omitempty"`
+	// ErrKind: "" = sim.ErrInjectedWrite, "short-write" = io.ErrShortWrite, "closed-pipe" = io.ErrClosedPipe.
+	ErrKind string `json:"err_kind,omitempty"`
 }
 
 // WriteCall records one Write call.
@@ -282,7 +303,7 @@ func (k *Sink) Write(p []byte) (int, error) {
 			k.FirstFailCall = idx
 			k.AcceptedAtFirstFail = len(k.Accepted)
 		}
-		return acc, ErrInjectedWrite
+		return acc, FaultErr(k.Plan.Fault.ErrKind, true)
 	}
 	return acc, nil
 }
